@@ -28,7 +28,10 @@ SPEC = 'MetaData'
 LEADS = [('MetaData.Lead_drop.cfg', 'Inv_Default', 'default_rp_dangling_after_drop'),
          ('MetaData.Lead_rename.cfg', 'Inv_Default', 'default_rp_dangling_after_rename'),
          ('MetaData.Lead_halfyear.cfg', 'Inv_ProbeOutcomes', 'shard_group_duration_default_at_180d')]
-STEP_ACTIONS = ['createdb', 'createdbrp', 'dropdb', 'createrp', 'droprp', 'updaterp', 'addsg']
+# operations that must have advanced some witness history (DropDatabase only ever leads back to a state BFS has already seen:
+# it is covered as a probe in every state and as a step in the simulated behaviours) / that must have been probed
+STEP_ACTIONS = ['createdb', 'createdbrp', 'createrp', 'droprp', 'updaterp', 'addsg']
+PROBE_ACTIONS = ['createdb', 'createdbrp', 'dropdb', 'createrp', 'droprp', 'updaterp', 'addsg', 'reload']
 ERR_CLASSES = ['ok', 'namerequired', 'toolow', 'replica', 'incompatible', 'dbnotfound', 'rpnotfound', 'exists', 'nameexists', 'conflict']
 
 
@@ -63,7 +66,7 @@ def read_generation(rng, dump_path, probe_budget):
     """nodes: key -> witness history text; probes grouped by node key (sampled by seed when above budget)."""
     nodes, probes = {}, {}
     nprobes = 0
-    acts, errs = {}, {}
+    acts, errs, pacts = {}, {}, {}
     for st in iter_raw_states(dump_path):
         key = squeeze(st['dbs']) + '|' + st['nsg'].strip()
         leaf = squeeze(st['leaf'])
@@ -76,6 +79,8 @@ def read_generation(rng, dump_path, probe_budget):
             nprobes += 1
             m = re.search(r'err \|-> "(\w+)"', leaf)
             errs[m.group(1)] = errs.get(m.group(1), 0) + 1
+            m = re.search(r' a \|-> "(\w+)"', leaf)
+            pacts[m.group(1)] = pacts.get(m.group(1), 0) + 1
     missing = [k for k in probes if k not in nodes]
     if missing:
         raise vlib.Inconclusive(f'{len(missing)} probe state(s) without their node in the dump')
@@ -91,7 +96,7 @@ def read_generation(rng, dump_path, probe_budget):
                 i += 1
             probes[k] = sel
         chosen = probe_budget
-    return nodes, probes, nprobes, chosen, acts, errs
+    return nodes, probes, nprobes, chosen, acts, errs, pacts
 
 
 def to_tla(v):
@@ -163,13 +168,13 @@ def run(ctx):
     # ---- 3. generation
     def gen(cfg, budget):
         g = ctx.tlc_must_pass(SPEC, cfg, timeout=sc * (600 if quick else 2400), workers=half, heap='3g', dump=True, tag='gen-' + cfg.split('.')[1])
-        nodes, probes, total, chosen, acts, errs = read_generation(random.Random(f'{ctx.seed}/{cfg}'), g.dump_path, budget)
+        nodes, probes, total, chosen, acts, errs, pacts = read_generation(random.Random(f'{ctx.seed}/{cfg}'), g.dump_path, budget)
         os.remove(g.dump_path)
         auto = cfg_constant(ctx, cfg, 'AutoCreate') == 'TRUE'
         cases = []
         for i, k in enumerate(sorted(nodes)):
             cases.append({'hist': nodes[k], 'probes': probes.get(k, []), 'conc': i, 'store': 'bolt' if i % 16 == 5 else 'inmem', 'auto': auto, 'lead': ''})
-        return cfg, cases, {'nodes': len(nodes), 'probes': total, 'probes_replayed': chosen, 'step_actions': acts, 'probe_outcomes': errs}
+        return cfg, cases, {'nodes': len(nodes), 'probes': total, 'probes_replayed': chosen, 'step_actions': acts, 'probe_outcomes': errs, 'probe_actions': pacts}
 
     # ---- 4. simulation
     def sim(cfg, num, depth):
@@ -221,7 +226,7 @@ def run(ctx):
 
     with ThreadPoolExecutor(max_workers=3) as ex:
         f_gen = [ex.submit(gen, f'MetaData.Gen_{tier}.cfg', gen_budget), ex.submit(gen, f'MetaData.Gendur_{tier}.cfg', gen_budget)]
-        f_sim = ex.submit(sim, f'MetaData.Sim_{tier}.cfg', 160 if quick else 1600, 10 if quick else 16)
+        f_sim = ex.submit(sim, f'MetaData.Sim_{tier}.cfg', 320 if quick else 1600, 10 if quick else 16)
         gens = []
         for f in f_gen:
             try:
@@ -236,12 +241,12 @@ def run(ctx):
         raise vlib.Inconclusive(' | '.join(errs)[:3000])
 
     # vacuity guards: every operation advanced some history, every error class was the outcome of some probe
-    acts, outcomes = {}, {}
+    acts, outcomes, pacts = {}, {}, {}
     for _, _, st in gens:
-        for a, n in st['step_actions'].items():
-            acts[a] = acts.get(a, 0) + n
-        for e, n in st['probe_outcomes'].items():
-            outcomes[e] = outcomes.get(e, 0) + n
+        for src, dst in ((st['step_actions'], acts), (st['probe_outcomes'], outcomes), (st['probe_actions'], pacts)):
+            for a, n in src.items():
+                dst[a] = dst.get(a, 0) + n
+    ndiv = len(ctx.divergences)          # (the reproduced leads)
     gen_stats = {}
     sampled = False
     for cfg, cases, st in gens:
@@ -251,8 +256,8 @@ def run(ctx):
         ctx.absorb(res, lines, sample=1)
     res, lines = ctx.replay(binary, sim_cases, timeout=sc * (600 if quick else 1800))
     ctx.absorb(res, lines, sample=1)
-    zero = [a for a in STEP_ACTIONS if not acts.get(a)] + [e for e in ERR_CLASSES if not outcomes.get(e)]
-    if zero and not ctx.divergences:
+    zero = [a for a in STEP_ACTIONS if not acts.get(a)] + [e for e in ERR_CLASSES if not outcomes.get(e)] + [a for a in PROBE_ACTIONS if not pacts.get(a)]
+    if zero and len(ctx.divergences) == ndiv:
         raise vlib.Inconclusive(f'vacuity guard: never generated: {zero}')
 
     ctx.exhaustive = not sampled
